@@ -126,6 +126,7 @@ Step(r) ==
       [] r.op = "create_track" -> CreateTrack(r.new)
       [] r.op = "remove_track" -> RemoveTrack(r.t)
       [] r.op = "add_track" -> AddTrack(r.c, r.t)
+      [] r.op = "add_tracks" -> AddTracks(r.c, r.ts)
       [] r.op = "remove_track_from" -> RemoveTrackFrom(r.c, r.t)
       [] r.op = "clear_tracks" -> ClearTracks(r.c)
       [] OTHER -> FALSE
@@ -172,6 +173,7 @@ TCall ==
     /\ LET r == Log[l] IN
        /\ r.e = "call" /\ ~Has(r, "probe")
        /\ Has(r, "obs")                       \* the observation itself completed
+       /\ (Has(r, "ac") => r.ac)            \* the call returned with no transaction left open on its connection (C14)
        /\ IF Faulted(r)
           THEN Failed(Call(r.op, 0, 0, "", 0, 0))     \* C14: a failed statement => throw, no effect
           ELSE Step(r)
